@@ -20,7 +20,7 @@ from gym_gridverse.grid_object import Box, Color, Door
 from gym_gridverse.utils import raytracing as RT
 from gym_gridverse.utils.fast_copy import fast_copy
 
-from .. import dyn
+from .. import configs, dyn, reach
 from .. import refmodel as R
 from .. import universe as U
 from ..choice import ChoiceRng, explore
@@ -96,6 +96,7 @@ def judge(names, s, a):
     sig = {'part': 'step'}
     n = 0
     st = mkstate(s)
+    hash(st), hash(st.grid), hash(st.agent)  # anything memoised on the objects is now primed
 
     def run(rng):
         env._rng = rng
@@ -116,6 +117,9 @@ def judge(names, s, a):
         if shared:
             what = sorted({mutable_ids(st)[i] for i in shared})
             return n, True, f'next state shares mutable components with its input: {what}', dict(sig, law='no_sharing')
+        fresh = mkstate(sdesc(st2))
+        if not (st2 == fresh) or hash(st2) != hash(fresh) or hash(st2.grid) != hash(fresh.grid) or hash(st2.agent) != hash(fresh.agent):
+            return n, True, 'the returned next state does not equal / hash like a freshly built equal state', dict(sig, law='copy_hash')
         if first is None:
             first = st2
     if first is not None:
@@ -134,7 +138,8 @@ def judge(names, s, a):
         # (i) rewards / terminations / observations do not modify their arguments
         st_c, st_d = mkstate(s), mkstate(k2)
         act = dyn.ACT[a]
-        for i, (name, kw) in enumerate(c12.REWARDS):
+        # (the components do not branch on the action beyond move / actuate / other: three actions cover them)
+        for i, (name, kw) in enumerate(c12.REWARDS if a in ('MOVE_FORWARD', 'ACTUATE', 'PICK_N_DROP') else ()):
             if not c12.RR.precondition(name, kw, s, k2):
                 continue
             n += 1
@@ -144,7 +149,7 @@ def judge(names, s, a):
                 continue
             if sdesc(st_c) != s or sdesc(st_d) != k2:
                 return n, True, f'reward {name} modified its arguments', {'part': 'reward', 'component': name}
-        for i, (name, kw) in enumerate(c12.TERMS):
+        for i, (name, kw) in enumerate(c12.TERMS if a in ('MOVE_FORWARD', 'ACTUATE', 'PICK_N_DROP') else ()):
             n += 1
             try:
                 c12.real_term(i, 'factory')(st_c, act, st_d)
@@ -165,8 +170,8 @@ def state_law(s):
         return 'hash of a copied state/grid/agent differs from the original'
     if set(mutable_ids(cp)) & set(mutable_ids(st)):
         return 'fast_copy shares mutable components with the original'
-    for area in (((-2, 0), (-1, 1)), ((-1, 1), (-1, 2))):
-        for name in c01.OBS_FUNCS:
+    for area in (((-2, 0), (-1, 1)),):
+        for name in c01.OBS_FUNCS[1:]:
             if name == 'partially_occluded' and area[0][1] != 0:
                 continue
             fn = c01.obs_fn(name, ((area[0]), (area[1])))[0] if (area[1][1] - area[1][0]) % 2 == 0 else OF.factory(name, area=Area(*area))
@@ -208,6 +213,7 @@ def _questions():
     qs.append(('obs', 'raytracing', ((-2, 0), (-1, 1)), (g1, 2, 1, 'F', NONE)))
     qs.append(('obs', 'raytracing', ((-1, 1), (-1, 1)), (og, 1, 1, 'R', NONE)))
     qs.append(('obs', 'partially_occluded', ((-2, 0), (-1, 1)), (og, 2, 1, 'F', NONE)))
+    qs.append(('obs', 'fully_transparent', ((-2, 0), (-1, 1)), (og, 2, 1, 'F', NONE)))
     # direct table / fan queries
     qs.append(('dijkstra', layout_of(g1), (2, 2)))
     qs.append(('dijkstra', layout_of(g1), (0, 0)))
@@ -223,9 +229,19 @@ _SP = RW.factory('getting_closer_shortest_path', object_type=c12.RR.grid_object_
 
 
 def clear_caches():
-    RW.dijkstra.cache_clear()
-    RT.cached_compute_rays.cache_clear()
-    RT.cached_compute_rays_fancy.cache_clear()
+    """clear every functools cache found in the library's modules (not only the ones known today)"""
+    import sys
+
+    for name, mod in list(sys.modules.items()):
+        if not name.startswith('gym_gridverse') or mod is None:
+            continue
+        for attr in list(vars(mod).values()):
+            if callable(getattr(attr, 'cache_clear', None)):
+                attr.cache_clear()
+            for sub in (vars(attr).values() if isinstance(attr, type) else ()):
+                fn = getattr(sub, '__func__', sub)
+                if callable(getattr(fn, 'cache_clear', None)):
+                    fn.cache_clear()
 
 
 def ask(q):
@@ -297,7 +313,39 @@ def _hist_work(job):
     return n, fails
 
 
+def make_hooks(env, name):
+    """history independence over the reachable graph: every object reached through some history must answer like a
+    freshly built equal state (same step result, same observation), and must equal / hash like it"""
+
+    def on_edge(k, st, a, choices, k2, st2, reward, done, g):
+        env._rng = ChoiceRng(choices)
+        try:
+            f2, fr, fd = env.functional_step(mkstate(k), a)
+        except Exception as e:  # noqa: BLE001
+            return f'{a.name}: a freshly built equal state raises {type(e).__name__} while the state reached through a history does not'
+        if sdesc(f2) != k2 or fr != reward or bool(fd) != bool(done):
+            return (f'{a.name}: the same question (state, action, random outcome) is answered differently for a state reached through '
+                    f'a history than for a freshly built equal state')
+        return None
+
+    def on_state(k, st, g):
+        fresh = mkstate(k)
+        if not (st == fresh) or hash(st) != hash(fresh):
+            return 'a state reached through a history does not equal / hash like a freshly built equal state'
+        env._rng = ChoiceRng([])
+        o1 = sdesc(env.functional_observation(st))
+        env._rng = ChoiceRng([])
+        o2 = sdesc(env.functional_observation(fresh))
+        if o1 != o2:
+            return 'the observation of a state reached through a history differs from that of a freshly built equal state'
+        return None
+
+    return on_state, on_edge
+
+
 def replay(case):
+    if case['kind'] == 'reach':
+        return reach.replay_trace(case, make_hooks)
     if case['kind'] == 'step':
         return judge(tuple(case['names']), tup(case['s']), case['a'])[2]
     if case['kind'] == 'state_law':
@@ -311,17 +359,19 @@ def run(rep, tier, seed):
     if tier == 'quick':
         plan = []
         for sh in U.SHAPES_SMALL:
-            plan.append(dict(shape=sh, sigma='full', k=1, held='small', chains=[dyn.CHAIN_FULL], actions=R.ACTIONS))
-            if sh[0] * sh[1] <= 6:
+            plan.append(dict(shape=sh, sigma='full', k=1, held='two', chains=[dyn.CHAIN_FULL], actions=R.ACTIONS))
+            if sh[0] * sh[1] <= 4:
                 plan.append(dict(shape=sh, sigma='door5', k=2, held='two', chains=[dyn.CHAIN_FULL], actions=R.ACTIONS, only_k=2))
     else:
         plan = dyn.standard_plan(tier, CHAINS, [dyn.CHAIN_FULL], held_lo='small', held_hi='two', sigma_hi='reduced')
+    for e in plan:
+        e['cost'] = 12  # relative cost of one case (job sizing)
     tot = dyn.run_universe(rep, plan, _worker, replay)
     depth = 3 if tier == 'quick' else 4
     nq = len(QUESTIONS)
     seqs = [seq for d in range(1, depth + 1) for seq in itertools.product(range(nq), repeat=d)]
     # depth beyond: all sequences up to length 5 over the 4 direct table queries that collide on layout/source
-    core = [7, 8, 9, 0]
+    core = [8, 9, 10, 0]
     seqs += [seq for d in range(depth + 1, 6) for seq in itertools.product(core, repeat=d)]
     chunks = [(seqs[i::64],) for i in range(64)]
     hn = 0
@@ -332,14 +382,20 @@ def run(rep, tier, seed):
     dyn.report_fails(rep, fails, replay)
     rep.part('cache_histories', questions=nq, histories=hn, depth_all_questions=depth, depth_core_questions=5,
              question_kinds=sorted({q[0] for q in QUESTIONS}))
+    if tier == 'quick':
+        names, init_limit, max_states, gcap = configs.SMALL + ['crossing.7x7', 'four_rooms.7x7'], 120, 4000, 3
+    else:
+        names, init_limit, max_states, gcap = [n for n, _ in configs.all_configs()], 1000, 60000, None
+    rs, rt = dyn.run_reach(rep, names, init_limit, max_states, make_hooks, replay, 'history_independent_on_reachable_graph',
+                           group_cap=gcap, lineages=3)
     rep.sample({'kind': 'history', 'seq': [7, 9, 8, 7], 'prologue': True})
     rep.assume('aliasing of objects without instance state (Floor, Wall, MovingObstacle) is not counted as sharing a mutable '
                'component; observations may share cell objects with the state (only modification is forbidden)')
     return rep.finish(
-        states=tot['states'],
-        transitions=tot['exec'] + hn,
-        validated=tot['exec'] + hn,
-        evaluations=tot['exec'] + hn,
+        states=tot['states'] + rs,
+        transitions=tot['exec'] + hn + rt,
+        validated=tot['exec'] + hn + rt,
+        evaluations=tot['exec'] + hn + rt,
         distinct_nontrivial=tot['nontrivial'] + hn,
         rule='universe case = (grid, pose, held, chain, action): step + differential mutation + all reward/termination '
         'components; history case = one sequence of questions (from cleared caches / after an overflowing prologue); '
